@@ -119,7 +119,7 @@ _RATE = "self._CuckooFilter__expansion_rate"
 _EXTRA = "(1 if (extra_fingerprint is not None and f == extra_fingerprint) else 0)"
 
 contract("CuckooFilter._setup_expand", contexts=["CuckooFilter"], properties=["C03", "C15", "C14"],
-         params={"extra_fingerprint": "opt[int]"}, returns="list[int]",
+         params={"extra_fingerprint": "opt[int]"}, returns="list[int]", locals={"fingerprints": "list[int]"},
          requires=[("shape", "ck_shape(self)"), ("expansion_rate", f"{_RATE} >= 1")],
          modifies=[BK, CAP, "self._inserted_elements"], rebinds=[BK],
          ensures=[("every_stored_fingerprint_and_the_extra_one_is_listed",
